@@ -96,6 +96,14 @@ def ba_frombytes(it, ba, b):
         for c in b.pat:
             ba._push(Seg(1, 'k', c) if c != '?' else Seg(1, '?', None))
         return
+    if isinstance(b, Term) and b.op == 'cat' and all(isinstance(bytes_len(it, p_), K) for p_ in b.a):
+        for p_ in b.a:                  # a concatenation is stored piece by piece (each piece in its own normal form)
+            ba_frombytes(it, ba, p_)
+        return
+    if type(b).__name__ == 'Rope' and getattr(b, 'parts', None):
+        for p_, _n in b.parts:
+            ba_frombytes(it, ba, p_)
+        return
     n = bytes_len(it, b)
     if isinstance(n, K):
         if isinstance(b, Term) and b.op == 'to_bytes' and isinstance(b.a[2], K) and b.a[2].v == 'big' and isinstance(b.a[3], K) \
